@@ -749,7 +749,7 @@ static void jnt_convolve_2d_ver_2tap_avx512(const int16_t *const im_block, const
                                                               r + 2,
                                                               factor_512,
                                                               offset_comp_avg_512,
-                                                              dst + dst8_stride,
+                                                              dst + dst_stride,
                                                               dst8 + dst8_stride);
 
                         dst += 2 * dst_stride;
@@ -821,7 +821,7 @@ static void jnt_convolve_2d_ver_2tap_avx512(const int16_t *const im_block, const
                                                               r + 2,
                                                               factor_512,
                                                               offset_comp_avg_512,
-                                                              dst + dst8_stride + 0 * 64,
+                                                              dst + dst_stride + 0 * 64,
                                                               dst8 + dst8_stride + 0 * 64);
 
                         xy_y_convolve_2tap_64_avx512(
@@ -830,7 +830,7 @@ static void jnt_convolve_2d_ver_2tap_avx512(const int16_t *const im_block, const
                                                               r + 2,
                                                               factor_512,
                                                               offset_comp_avg_512,
-                                                              dst + dst8_stride + 1 * 64,
+                                                              dst + dst_stride + 1 * 64,
                                                               dst8 + dst8_stride + 1 * 64);
 
                         dst += 2 * dst_stride;
